@@ -113,6 +113,9 @@ SCHED_ASSUMPTIONS = [
     "the schedule-controlled engine explores interleavings of synchronisation operations under sequential consistency; "
     "weak-memory reorderings are not explored",
     "liveness is bounded: no deadlock and completion within a step budget under a fairness quantum, in virtual time",
+    "virtual time: timed waits expire in deadline order and never early; in the periodic-reader / provider scenarios that "
+    "request it, timers expiring within 30 us of each other wake at the same instant (wake-up latency) and the schedule "
+    "decides who runs first",
     "only std::atomic/mutex/condition_variable/thread/this_thread/steady_clock/system_clock tokens are renamed in copies of the "
     "processor sources; the compiled code is otherwise the repository's",
 ]
